@@ -7,13 +7,13 @@ cd "$WT" || exit 2
 git checkout -q -- . 
 DIR=$(python3 -c "import json;print(json.load(open('$S/meta.json'))['demo_dir'])")
 CMD=$(python3 -c "import json;print(json.load(open('$S/meta.json'))['demo_cmd'])")
-cp "$S/demo_test.go" "$DIR/zz_seed_demo_test.go"
+case "$CMD" in *"cp seeded"*) ;; *) cp "$S/demo_test.go" "$DIR/zz_seed_demo_test.go";; esac
 echo "== demo without patch (expect PASS): $CMD"
 ( eval "$CMD" ) > /tmp/seed_demo_clean.log 2>&1; A=$?; tail -3 /tmp/seed_demo_clean.log
 git apply "$S/patch.diff" || { echo "PATCH DOES NOT APPLY"; exit 3; }
 echo "== demo with patch (expect FAIL)"
 ( eval "$CMD" ) > /tmp/seed_demo_patched.log 2>&1; B=$?; tail -3 /tmp/seed_demo_patched.log
-rm -f "$DIR/zz_seed_demo_test.go"
+rm -f "$DIR/zz_seed_demo_test.go"; git clean -fdq -e seeded -- . >/dev/null 2>&1
 echo "== pinned suite with patch (expect 540 pass)"
 go test -mod=mod -json -vet=off -count=1 -timeout 25m ./... > /tmp/seed_suite.json 2>/dev/null
 python3 - <<'PY'
